@@ -687,6 +687,188 @@ Proof.
   apply delim_end_short. pose proof (takeN_len (0 + 1) (d_rem d)). lia.
 Qed.
 
+(* ------------------------------------------------------------------ whole assertions: splitting at the blank lines *)
+Lemma no_nl_cut_first : forall l, no_nl l = true -> cut_first_nlnl l = None.
+Proof.
+  induction l as [|c l IH]; intro H; [reflexivity|]. cbn in H. apply andb_true_iff in H. destruct H as [H1 H2].
+  apply negb_true_iff in H1. cbn [cut_first_nlnl has_prefix NLNL]. rewrite N.eqb_sym, H1. cbn [andb].
+  rewrite (IH H2). reflexivity.
+Qed.
+
+Lemma cut_first_app_sep : forall s t, cut_first_nlnl s = None -> last s 0 <> NL ->
+  cut_first_nlnl (s ++ NLNL ++ t) = Some (s, t).
+Proof.
+  induction s as [|c r IH]; intros t H Hl; [reflexivity|].
+  apply cut_first_cons_none in H. destruct H as [Hp Hc].
+  assert (Hp' : has_prefix NLNL (c :: r ++ NLNL ++ t) = false).
+  { destruct r as [|x r']; [|exact Hp]. cbn in Hl. cbn [app has_prefix NLNL].
+    destruct (NL =? c) eqn:E; [apply N.eqb_eq in E; congruence|reflexivity]. }
+  change ((c :: r) ++ NLNL ++ t) with (c :: (r ++ NLNL ++ t)). cbn [cut_first_nlnl]. rewrite Hp'.
+  rewrite IH; [reflexivity|exact Hc|]. destruct r as [|x r']; [cbn; unfold NL; lia|exact Hl].
+Qed.
+
+Lemma cut_last_none : forall t, cut_first_nlnl t = None -> cut_last_nlnl t = None.
+Proof.
+  induction t as [|c r IH]; intro H; [reflexivity|]. apply cut_first_cons_none in H. destruct H as [Hp Hc].
+  cbn [cut_last_nlnl]. rewrite (IH Hc), Hp. reflexivity.
+Qed.
+
+Lemma cut_last_app_sep : forall s t, cut_first_nlnl t = None -> has_prefix [NL] t = false ->
+  cut_last_nlnl (s ++ NLNL ++ t) = Some (s, t).
+Proof.
+  induction s as [|c r IH]; intros t H Hh.
+  - cbn [app NLNL]. cbn [cut_last_nlnl]. rewrite (cut_last_none t H).
+    assert (Hx : has_prefix NLNL (NL :: t) = false).
+    { destruct t as [|x t']; [reflexivity|]. cbn [has_prefix NLNL] in *. rewrite N.eqb_refl. cbn [andb]. exact Hh. }
+    rewrite Hx. cbn [has_prefix NLNL]. rewrite !N.eqb_refl. reflexivity.
+  - change ((c :: r) ++ NLNL ++ t) with (c :: (r ++ NLNL ++ t)). cbn [cut_last_nlnl]. rewrite (IH t H Hh). reflexivity.
+Qed.
+
+Definition line_ok (l : line) : Prop := l <> [] /\ no_nl l = true.
+
+Lemma line_ok_ends : forall l, line_ok l -> has_prefix [NL] l = false /\ last l 0 <> NL.
+Proof.
+  intros l [Hne Hn]. split.
+  - destruct l as [|c r]; [congruence|]. cbn in Hn. apply andb_true_iff in Hn. destruct Hn as [H1 _].
+    apply negb_true_iff in H1. cbn [has_prefix]. rewrite N.eqb_sym, H1. reflexivity.
+  - clear Hne. induction l as [|c r IH]; [cbn; unfold NL; lia|]. cbn in Hn. apply andb_true_iff in Hn. destruct Hn as [H1 H2].
+    destruct r as [|x r']; [cbn; apply negb_true_iff in H1; apply N.eqb_neq in H1; exact H1|]. apply IH. exact H2.
+Qed.
+
+Lemma cut_first_line_then : forall l J, no_nl l = true -> cut_first_nlnl J = None -> has_prefix [NL] J = false ->
+  cut_first_nlnl (l ++ NL :: J) = None.
+Proof.
+  induction l as [|c l IH]; intros J Hn HJ Hh.
+  - cbn [app cut_first_nlnl]. rewrite HJ.
+    assert (Hx : has_prefix NLNL (NL :: J) = false).
+    { destruct J as [|x J']; [reflexivity|]. cbn [has_prefix NLNL] in *. rewrite N.eqb_refl. cbn [andb]. exact Hh. }
+    rewrite Hx. reflexivity.
+  - cbn in Hn. apply andb_true_iff in Hn. destruct Hn as [H1 H2]. apply negb_true_iff in H1.
+    cbn [app cut_first_nlnl has_prefix NLNL]. rewrite N.eqb_sym, H1. cbn [andb]. rewrite (IH J H2 HJ Hh). reflexivity.
+Qed.
+
+Lemma last_app_cons : forall (l : bytes) x J, last (l ++ x :: J) 0 = last (x :: J) 0.
+Proof. induction l as [|c l IH]; intros x J; [reflexivity|]. cbn [app]. rewrite <- (IH x J). destruct (l ++ x :: J) eqn:E; [destruct l; discriminate|reflexivity]. Qed.
+
+Lemma join_lines_ok : forall ls, ls <> [] -> Forall line_ok ls ->
+  cut_first_nlnl (join_lines ls) = None /\ has_prefix [NL] (join_lines ls) = false /\ last (join_lines ls) 0 <> NL.
+Proof.
+  induction ls as [|l ls IH]; intros Hne HF; [congruence|]. inversion HF as [|? ? Hl HF']; subst.
+  destruct (line_ok_ends l Hl) as [Hh Hlast]. destruct Hl as [Hlne Hn].
+  destruct ls as [|l2 ls2].
+  - cbn [join_lines]. split; [apply no_nl_cut_first; exact Hn|]. split; assumption.
+  - change (join_lines (l :: l2 :: ls2)) with (l ++ NL :: join_lines (l2 :: ls2)).
+    destruct (IH ltac:(discriminate) HF') as [HJ [HJh HJl]]. split; [apply cut_first_line_then; assumption|]. split.
+    + destruct l as [|c r]; [exfalso; apply Hlne; reflexivity|]. exact Hh.
+    + rewrite last_app_cons. destruct (join_lines (l2 :: ls2)) as [|y J] eqn:E.
+      * exfalso. inversion HF' as [|? ? [Hx _] _]; subst. destruct l2 as [|c2 l2']; [apply Hx; reflexivity|].
+        cbn [join_lines] in E. destruct ls2; discriminate.
+      * exact HJl.
+Qed.
+
+(* every line written by appendEntry is non-empty *)
+Lemma Forall_flat_map : forall (A B : Type) (P : B -> Prop) (f : A -> list B) l,
+  (forall x, In x l -> Forall P (f x)) -> Forall P (flat_map f l).
+Proof.
+  intros A B P f. induction l as [|x l IH]; intro H; cbn; [constructor|].
+  apply Forall_app. split; [apply H; left; reflexivity|apply IH; intros y Hy; apply H; right; exact Hy].
+Qed.
+
+Lemma spaces_succ_app_ne : forall n (l : bytes), spaces (S n) ++ l <> [].
+Proof. intros n l. cbn. discriminate. Qed.
+
+Lemma format_lines_nonempty : forall v intro b, intro <> [] -> Forall (fun l : line => l <> []) (format_entry intro v b).
+Proof.
+  intro v. induction v as [ls|l IH|m IH] using hv_ind2; intros intro b Hi.
+  - assert (Hx : forall x : bytes, intro ++ x <> []) by (intros x E; apply app_eq_nil in E; tauto).
+    destruct ls as [|l1 [|l2 ls]]; cbn [format_entry].
+    + constructor; [apply Hx|constructor].
+    + constructor; [apply Hx|constructor].
+    + constructor; [exact Hi|]. apply Forall_forall. intros x Hin. apply in_map_iff in Hin. destruct Hin as [y [<- _]].
+      replace (b + 4)%nat with (S (b + 3)) by lia. apply spaces_succ_app_ne.
+  - destruct l as [|e l]; cbn [format_entry]; [constructor|]. constructor; [exact Hi|].
+    apply Forall_flat_map. intros x Hin. rewrite Forall_forall in IH. apply (IH x Hin).
+    unfold list_intro. intro E. apply app_eq_nil in E. destruct E; discriminate.
+  - destruct m as [|kv m]; cbn [format_entry]; [constructor|]. constructor; [exact Hi|].
+    apply Forall_flat_map. intros x Hin. rewrite Forall_forall in IH. apply (IH x Hin).
+    unfold map_intro. replace (b + 2)%nat with (S (b + 1)) by lia. intro E. cbn in E. discriminate.
+Qed.
+
+Lemma format_headers_lines_ok : forall h,
+  forallb (fun kv => valid_name (fst kv) && norm (snd kv)) h = true ->
+  forallb no_nl (format_headers h) = true -> Forall line_ok (format_headers h).
+Proof.
+  intros h Hn Hl. rewrite forallb_forall in Hl.
+  assert (Hne : Forall (fun l : line => l <> []) (format_headers h)).
+  { unfold format_headers. apply Forall_flat_map. intros [k v] Hin. apply format_lines_nonempty.
+    intro E. apply app_eq_nil in E. destruct E; discriminate. }
+  rewrite Forall_forall in *. intros l Hin. split; [apply Hne; exact Hin|apply Hl; exact Hin].
+Qed.
+
+(* Decode (Encode a) for an assertion with normalised headers h, body and signature: the splitting at the blank lines
+   and the header parser give back exactly h, the body and the signature.  Constraints of the format, all stated:
+   header strings contain no newline inside a line (they are lists of lines), the header text is valid UTF-8, the
+   signature contains no blank line and does not start with a newline (it is base64 text).  The body is arbitrary. *)
+Theorem assertion_roundtrip : forall h body sig,
+  norm_headers h = true -> h <> [] ->
+  forallb no_nl (format_headers h) = true -> utf8_valid (join_lines (format_headers h)) = true ->
+  cut_first_nlnl sig = None -> has_prefix [NL] sig = false ->
+  decode_parts (encode_assertion h body sig) = Ok (mkParts h body sig).
+Proof.
+  intros h body sig Hn Hne Hl Hu Hs1 Hs2.
+  pose proof (roundtrip_bytes h Hn Hne Hl Hu) as Hrt.
+  assert (Hok : Forall line_ok (format_headers h)).
+  { apply format_headers_lines_ok; [|exact Hl]. unfold norm_headers in Hn. apply andb_true_iff in Hn. tauto. }
+  assert (Hfne : format_headers h <> []).
+  { destruct h as [|[k v] h']; [congruence|]. unfold norm_headers in Hn. cbn in Hn.
+    apply andb_true_iff in Hn. destruct Hn as [Hn _]. apply andb_true_iff in Hn. destruct Hn as [Hn _].
+    apply andb_true_iff in Hn. destruct Hn as [_ Hv].
+    destruct (format_head v (k ++ [COLON]) 0 Hv) as [x [tl Hf]]. unfold format_headers. cbn [flat_map fst snd].
+    rewrite Hf. discriminate. }
+  destruct (join_lines_ok _ Hfne Hok) as [Hc [_ Hlast]].
+  unfold decode_parts, encode_assertion, encode. rewrite (cut_last_app_sep _ sig Hs1 Hs2).
+  unfold content_of. destruct body as [|b0 body'].
+  - cbn [is_nil_b]. rewrite Hc. rewrite Hrt. reflexivity.
+  - cbn [is_nil_b]. rewrite (cut_first_app_sep _ (b0 :: body') Hc Hlast). rewrite Hrt. reflexivity.
+Qed.
+
+(* ------------------------------------------------------------------ bufio.Peek over any chunking of the reader *)
+Lemma peek_fill_spec : forall n chunks buf b chunks' hit,
+  peek_fill n buf chunks = (b, chunks', hit) ->
+  b ++ concat chunks' = buf ++ concat chunks /\
+  (hit = false -> (n <= length b)%nat) /\ (hit = true -> chunks' = [] /\ (length b < n)%nat).
+Proof.
+  intros n. induction chunks as [|c r IH]; intros buf b chunks' hit H; cbn [peek_fill] in H.
+  - inversion H; subst. split; [reflexivity|]. split; intro E.
+    + apply Nat.ltb_ge in E. exact E.
+    + apply Nat.ltb_lt in E. split; [reflexivity|exact E].
+  - destruct (Nat.leb n (length buf)) eqn:L.
+    + inversion H; subst. split; [reflexivity|]. split; [intros _; apply Nat.leb_le; exact L|discriminate].
+    + apply IH in H. destruct H as [H1 H2]. split; [|exact H2]. rewrite H1. cbn [concat]. rewrite app_assoc. reflexivity.
+Qed.
+
+(* what Peek(n) returns depends only on the bytes still to come, not on how the reader hands them out: it is the first
+   n of them, or all of them together with EOF if there are fewer - which is the [peek] of the stream decoder model *)
+Theorem chunk_peek_flat : forall n buf chunks,
+  chunk_peek n buf chunks =
+  let flat := buf ++ concat chunks in
+  if Nat.ltb (length flat) n then (flat, true) else (firstn n flat, false).
+Proof.
+  intros n buf chunks. unfold chunk_peek. destruct (peek_fill n buf chunks) as [[b chunks'] hit] eqn:E.
+  apply peek_fill_spec in E. destruct E as [Hf [H0 H1]]. cbn zeta. rewrite <- Hf. destruct hit.
+  - destruct (H1 eq_refl) as [-> Hlt]. cbn [concat]. rewrite app_nil_r.
+    replace (Nat.ltb (length b) n) with true by (symmetry; apply Nat.ltb_lt; exact Hlt).
+    rewrite firstn_all2 by lia. reflexivity.
+  - specialize (H0 eq_refl).
+    replace (Nat.ltb (length (b ++ concat chunks')) n) with false
+      by (symmetry; apply Nat.ltb_ge; rewrite app_length; lia).
+    rewrite firstn_app. replace (n - length b)%nat with 0%nat by lia. cbn [firstn]. rewrite app_nil_r. reflexivity.
+Qed.
+
+Theorem chunk_peek_independent : forall n buf1 chunks1 buf2 chunks2,
+  buf1 ++ concat chunks1 = buf2 ++ concat chunks2 -> chunk_peek n buf1 chunks1 = chunk_peek n buf2 chunks2.
+Proof. intros. rewrite !chunk_peek_flat. cbn zeta. rewrite H. reflexivity. Qed.
+
 (* every assertion handed on by one Decode call respects the body and signature limits *)
 Opaque ru_fuel read_until read_exact parse_headers body_length.
 
